@@ -401,11 +401,11 @@ def streams(tier, avoid):
                   f_max=0.08)
     return [
         Stream("static", body, strategy=cases(G.Opts(**common)),
-               n={"quick": 250, "thorough": 2000}, reduce=_reduce),
+               n={"quick": 250, "thorough": 1200}, reduce=_reduce),
         Stream("phases", body, strategy=cases(G.Opts(phases=True, **common)),
-               n={"quick": 150, "thorough": 1200}, reduce=_reduce),
+               n={"quick": 150, "thorough": 700}, reduce=_reduce),
         Stream("after_history", body_history, strategy=history_cases(),
-               n={"quick": 100, "thorough": 800}),
+               n={"quick": 100, "thorough": 500}),
         Stream("si_format", body_nice, strategy=G.logf(1e-15, 1e9),
                n={"quick": 5000, "thorough": 50000}),
     ]
